@@ -2,6 +2,7 @@ package main
 
 import (
 	"encoding/binary"
+	"strings"
 
 	"github.com/scionproto/scion/pkg/addr"
 	"github.com/scionproto/scion/pkg/slayers"
@@ -358,6 +359,13 @@ func (g *gen) flawed(f flawSpec, long bool) *scen {
 			// child -> parent is not an admissible cross-over; use a same-segment hop instead
 			s.kind = "transit"
 			s.segs, s.cur = g.segsFor("transit", long)
+		}
+	}
+	if strings.HasPrefix(f.name, "dsthost-") {
+		switch s.l4 {
+		case l4ScmpShort, l4UDPShort, l4ScmpUnknownInfo, l4ScmpUnknownErr:
+			// the destination port is looked up first and that fails: discarded without SCMP
+			s.expDisp = ""
 		}
 	}
 	return s
